@@ -21,8 +21,8 @@ from .. import history as H
 PID = 'C10'
 RULE = ('(A) stand-alone samplers: per-layer quantizers with 1..8 precisions, per-channel quantizers P x C for P in 2..8, C in {1,3,16}, combiners with '
         '2..8 branches; every arg-max position x 3 representatives (gaps 0.05 / mixed sign / large magnitude) x T in {0.05,1,20} x hard x gumbel x '
-        'disable_sampling x train/eval (complete product); (B) BFS over histories up to the depth bound over {12 fully specified option tuples, '
-        'train, eval, forward, 3 coefficient assignments} on MPS per-layer / per-channel models and two SuperNets; oracle: probability vector, one-hot at '
+        'disable_sampling x train/eval (complete product); (B) BFS over histories up to the depth bound over {fully specified option tuples, '
+        'train, eval, train+forward, eval+forward, 3 coefficient assignments}, each state observed in its own mode and after a switch to the other mode, on MPS per-layer / per-channel models and two SuperNets; oracle: probability vector, one-hot at '
         'arg-max(raw) in eval or train+hard+non-gumbel, gumbel+train: probability vector and one-hot iff hard, disabled: unchanged; arg-max == '
         'summary() == export(); non-trivial = a case with more than one alternative')
 ASSUMPTIONS = ['coefficient vectors have pairwise gaps >= 0.05 (precondition of the statement); temperatures in [0.05, 20]',
@@ -207,7 +207,7 @@ def _run_A(case, seed):
 # family B
 # ----------------------------------------------------------------------------------------------
 def _hist_alphabet(method, tier='quick'):
-    ops = ['train', 'eval', 'forward', 'coef0', 'coef1', 'coef2']
+    ops = ['train', 'eval', 'train+fwd', 'eval+fwd', 'coef0', 'coef1', 'coef2']
     for T in (TEMPS if tier == 'thorough' else [0.05, 20.0]):
         for hard in (0, 1):
             if method == 'mps':
@@ -288,7 +288,8 @@ def _run_B(case, seed):
                     nas.train()
                 elif op == 'eval':
                     nas.eval()
-                elif op == 'forward':
+                elif op in ('train+fwd', 'eval+fwd'):
+                    nas.train(op == 'train+fwd')
                     nf += 1
                     torch.manual_seed(300 + nf)
                     nas(x)
@@ -321,6 +322,23 @@ def _run_B(case, seed):
                 sig = f'{k}/{"combiner" if is_sn else "mps"}/{mode}/hard={int(opts["hard"])}' + (f'/gumbel={int(opts["gumbel"])}' if not is_sn else '')
                 add(k, sig, f'{n} with options {opts}: {msg}')
             keyparts.append(tuple(round(float(v), 4) for v in m.theta_alpha.flatten().tolist()))
+        # ... and once more after switching to the OTHER mode (the observation is two steps deep: a sample that survives a mode
+        # switch - e.g. a cached eval-mode one-hot or a left-over Gumbel sample - shows here)
+        try:
+            prevs2 = {n: m.theta_alpha.detach().clone() for n, m in _samplers(nas, method)}
+            nas.train(not training)
+            torch.manual_seed(1001)
+            with torch.no_grad():
+                nas(x)
+            mode2 = 'eval' if training else 'train'
+            for n, m in _samplers(nas, method):
+                bad = _check_theta(m.theta_alpha, m.alpha, opts, not training, prevs2[n], is_sn)
+                for k, msg in bad[:1]:
+                    sig = f'{k}/{"combiner" if is_sn else "mps"}/{mode2}/hard={int(opts["hard"])}' + (f'/gumbel={int(opts["gumbel"])}' if not is_sn else '')
+                    add(k, sig, f'after switching to {mode2} mode: {n} with options {opts}: {msg}')
+            nas.train(training)
+        except Exception as e:
+            add('operation-raises', f'operation-raises/{method}', f'mode switch + forward: {type(e).__name__}: {str(e)[:200]}')
         # reported == exported == arg-max(raw)
         try:
             summ = nas.summary()
